@@ -23,8 +23,8 @@ RULE = (
     "square-root transform and its inverse). Non-trivial = at least one Line2D artist (or 100 "
     "transformed values) was compared; distinct = descriptor hash."
 )
-MIN_NONTRIVIAL = {"quick": 80, "thorough": 1200}
-SHARDS = {"quick": 2, "thorough": 8}
+MIN_NONTRIVIAL = {"quick": 80, "thorough": 5000}
+SHARDS = {"quick": 2, "thorough": 16}
 GENERATOR = {"nx": [3, 10, 30], "nt": [2, 7, 40, 150], "every": "1..nt+3", "transform values": "10^U(-320, 300), 0, denormals"}
 ASSUMPTIONS = [
     "plotted data are compared exactly (np.array_equal) with independently recomputed arrays, except the rescaled profiles (2 ulp)",
@@ -56,7 +56,7 @@ def setup(ck):
 
 def generate(ck):
     rng = ck.rng
-    n = 110 if ck.tier == "quick" else 1700
+    n = 110 if ck.tier == "quick" else 8000
     descs = []
     for i in range(n):
         k = i % 8
